@@ -181,7 +181,16 @@ Proof.
 Qed.
 Theorem C10_source_remove_lanelet_is_restrict : forall i n, WF n ->
   run_remove src_remove_lanelet (run_cleanup src_cleanup_lanelets) i n = restrict (neq i) all all all n.
-Proof. intros i n H. rewrite src_remove_lanelet_is_model. exact (C10_remove_lanelet i n H). Qed.
+Proof. exact src_remove_lanelet_is_restrict. Qed.
+Theorem C10_source_remove_sign_is_restrict : forall i n, WF n ->
+  run_remove src_remove_sign (run_cleanup src_cleanup_signs) i n = restrict all (neq i) all all n.
+Proof. exact src_remove_sign_is_restrict. Qed.
+Theorem C10_source_remove_light_is_restrict : forall i n, WF n ->
+  run_remove src_remove_light (run_cleanup src_cleanup_lights) i n = restrict all all (neq i) all n.
+Proof. exact src_remove_light_is_restrict. Qed.
+Theorem C10_source_remove_intersection_is_restrict : forall i n, WF n ->
+  run_remove src_remove_inter (fun m => m) i n = restrict all all all (neq i) n.
+Proof. exact src_remove_inter_is_restrict. Qed.
 (* non-vacuity: the parsed programs, run on a three-lanelet network, remove lanelet 2 and every reference to it *)
 Example C10_source_nonvacuous :
   let l i p s a := mkL i p s a (match a with Some _ => Some true | None => None end) None None [] [] None [] 0 in
@@ -225,4 +234,7 @@ Print Assumptions C10_nonvacuous.
 Print Assumptions C10_cleanup_is_source.
 Print Assumptions C10_remove_is_source.
 Print Assumptions C10_source_remove_lanelet_is_restrict.
+Print Assumptions C10_source_remove_sign_is_restrict.
+Print Assumptions C10_source_remove_light_is_restrict.
+Print Assumptions C10_source_remove_intersection_is_restrict.
 Print Assumptions C10_source_nonvacuous.
